@@ -270,9 +270,10 @@ Definition seaweed_built_area (add : bool) (n delay : nat) (new_frac max_frac : 
   let long := sd ++ linspace init (qnat (n - 1) * per_month + init) n in
   firstn n (map (fun x => if Qlt_bool mx x then mx else x) long).
 
-(* 100 * ((daily / 100 + 1) ** 30), columns in increasing numeric order *)
-Definition seaweed_growth (daily : list Q) : list Q :=
-  map (fun d => 100 * Qpower (d / 100 + 1) 30) daily.
+(* 100 * ((daily / 100 + 1) ** 30), columns in increasing numeric order, cut to the horizon
+   (sorted_monthly_percents[: NMONTHS], fix: 90c9bfa) *)
+Definition growth_factor (d : Q) : Q := 100 * Qpower (d / 100 + 1) 30.
+Definition seaweed_growth (n : nat) (daily : list Q) : list Q := firstn n (map growth_factor daily).
 
 (* ------------------------------------------------------------------ stored food *)
 
